@@ -19,7 +19,7 @@ RULE = (
     "every tensor unchanged by backward(); after backward for all pairs shares_memory(grad_i, grad_j) implies "
     "shares_memory(data_i, data_j); then each .grad is overwritten in place with a sentinel and no tensor's data and "
     "no non-aliasing tensor's grad may change, and the caller's seed may change only if it is that tensor's gradient "
-    "object. Non-trivial = >=1 caller-owned ndarray / index object / array seed in the case; distinct by program skeleton."
+    "object; a copy of any tensor (Tensor.copy / copy.copy) shares neither data nor gradient memory with anything. Non-trivial = >=1 caller-owned ndarray / index object / array seed in the case; distinct by program skeleton."
 )
 ASSUMPTIONS = ["index objects are observed by wrapping the harness' own index decoder (the very objects handed to MyGrad)"]
 
@@ -138,6 +138,21 @@ def check_case(case, rec=None):
                 continue
             if np.shares_memory(g1, g2) and not np.shares_memory(tens[h1].data, tens[h2].data):
                 return Mismatch("grad_aliasing", f"gradients of h{h1} and h{h2} share memory but their data do not")
+    # copies own their data and their gradient (Tensor.copy / copy.copy are "any MyGrad function" too)
+    import copy as _copy
+
+    for j, h in enumerate(hs):
+        t = tens[h]
+        c = t.copy() if j % 2 == 0 else _copy.copy(t)
+        if _sum(t.data) != data_before[h]:
+            return Mismatch("data_modified_by_copy", f"copying h{h} changed its data")
+        cg = c.grad
+        if t.size > 0 and np.shares_memory(c.data, t.data):
+            return Mismatch("copy_aliases_data", f"h{h}.copy() shares data memory with h{h}")
+        if cg is not None and cg.size > 0:
+            for k in hs:
+                if grads[k] is not None and grads[k].size > 0 and np.shares_memory(cg, grads[k]):
+                    return Mismatch("copy_grad_aliasing", f"the gradient of h{h}.copy() shares memory with h{k}.grad")
     # sentinel writes
     for h in hs:
         g = grads[h]
